@@ -579,3 +579,105 @@ func c19r8(rc *core.RC) {
 	})
 	rc.Check(ok && n > 0, key, fd.Pos(), "every return is context.WithValue(ctx, key, query) with the function's own query argument (%d return(s)): a nil query replaces the enclosing one instead of leaving it visible", n)
 }
+
+// ---- C19.R9 the program run for an interface value is the one compiled in that very handler ----
+
+// The program for the dynamic value of an interface member depends on the value's type and, under a
+// field query, on the member's own sub-query (code.FieldQuery). The OpInterface handler obtains it
+// from encoder.CompileToGetCodeSet after installing that sub-query. Every use of an *OpcodeSet in the
+// handler must go back to a variable whose only definition is that call, made in the handler: a
+// program remembered from an earlier opcode (a variable of Run that outlives the handler) was built
+// for another member's sub-query.
+func c19r9(rc *core.RC) {
+	p := rc.P
+	for _, short := range core.VMPkgs {
+		fd := p.Func(short, "Run")
+		if fd == nil {
+			rc.Unknown(short+".Run", token.NoPos, "not found")
+			continue
+		}
+		info := p.Info(fd)
+		var clause *ast.CaseClause
+		ast.Inspect(fd.Body, func(m ast.Node) bool {
+			cc, ok := m.(*ast.CaseClause)
+			if !ok {
+				return true
+			}
+			for _, l := range cc.List {
+				if sel, isSel := l.(*ast.SelectorExpr); isSel && sel.Sel.Name == "OpInterface" {
+					clause = cc
+				}
+			}
+			return clause == nil
+		})
+		key := short + ".Run/OpInterface program-compiled-here"
+		if clause == nil {
+			rc.Unknown(key, fd.Pos(), "OpInterface handler not found")
+			continue
+		}
+		rc.Touch(short + ".Run")
+		// variables of type *encoder.OpcodeSet used in the clause
+		vars := map[types.Object]token.Pos{}
+		ast.Inspect(clause, func(m ast.Node) bool {
+			id, ok := m.(*ast.Ident)
+			if !ok {
+				return true
+			}
+			o := info.Uses[id]
+			if o == nil {
+				o = info.Defs[id]
+			}
+			if v, isVar := o.(*types.Var); isVar && strings.HasSuffix(v.Type().String(), "encoder.OpcodeSet") {
+				if _, seen := vars[v]; !seen {
+					vars[v] = id.Pos()
+				}
+			}
+			return true
+		})
+		if len(vars) == 0 {
+			rc.Unknown(key, clause.Pos(), "no *OpcodeSet variable in the handler")
+			continue
+		}
+		bad := ""
+		at := clause.Pos()
+		for v, pos := range vars {
+			// declared inside the handler?
+			if !(clause.Pos() <= v.Pos() && v.Pos() <= clause.End()) {
+				bad = fmt.Sprintf("%s is declared outside the handler (it outlives one opcode)", v.Name())
+				at = pos
+				break
+			}
+			// definitions: all assignments to v in the clause
+			ndef, okDef := 0, true
+			ast.Inspect(clause, func(m ast.Node) bool {
+				as, isAssign := m.(*ast.AssignStmt)
+				if !isAssign {
+					return true
+				}
+				for i, l := range as.Lhs {
+					if core.ObjOf(info, l) != v {
+						continue
+					}
+					ndef++
+					var rhs ast.Expr
+					if len(as.Rhs) == 1 {
+						rhs = as.Rhs[0]
+					} else if i < len(as.Rhs) {
+						rhs = as.Rhs[i]
+					}
+					c, isCall := core.Unparen(rhs).(*ast.CallExpr)
+					if !isCall || core.CalleeName(info, c) != "encoder.CompileToGetCodeSet" {
+						okDef = false
+					}
+				}
+				return true
+			})
+			if ndef != 1 || !okDef {
+				bad = fmt.Sprintf("%s has %d definition(s) in the handler, not exactly one by encoder.CompileToGetCodeSet", v.Name(), ndef)
+				at = pos
+				break
+			}
+		}
+		rc.Check(bad == "", key, at, "every *OpcodeSet used by the OpInterface handler is a variable of the handler defined once, by encoder.CompileToGetCodeSet%s", map[bool]string{true: "", false: ": " + bad}[bad == ""])
+	}
+}
